@@ -249,6 +249,9 @@ func c17Identifiers(c *mon.Ctx) {
 func c17Base64(c *mon.Ctx) {
 	r := c.Rand("b64")
 	reps := c.Scale(8, 4000)
+	// one destination decoded into again and again (a row scanner's, a re-used struct's): what it holds afterwards is
+	// what the last text says, also when that is the empty string
+	var reused spec.Base64Bytes
 	for n := 0; n <= 70; n++ {
 		for k := 0; k < reps; k++ {
 			raw := r.Bytes(n)
@@ -283,6 +286,32 @@ func c17Base64(c *mon.Ctx) {
 					}
 					if mj, err := b.MarshalJSON(); err != nil || string(mj) != `"`+base64.RawStdEncoding.EncodeToString(raw)+`"` {
 						c.Failf("base64:json", "MarshalJSON of %x = %s, %v", raw, mj, err)
+					}
+				}
+				{
+					s := base64.RawStdEncoding.EncodeToString(raw)
+					var err error
+					how := gen.Pick(r, []string{"Decode", "Scan", "UnmarshalJSON"})
+					into := func(text string) {
+						switch how {
+						case "Decode":
+							err = reused.Decode(text)
+						case "Scan":
+							err = reused.Scan(text)
+						default:
+							err = reused.UnmarshalJSON([]byte(`"` + text + `"`))
+						}
+					}
+					into(s)
+					c.Count("base64_decodes_into_a_reused_value")
+					if err != nil || string(reused) != string(raw) {
+						c.Failf("base64:reused-destination", "%s(%q) into a value that held something before: %x, %v; want %x", how, s, []byte(reused), err, raw)
+					}
+					if r.Chance(0.4) {
+						into("")
+						if err != nil || len(reused) != 0 {
+							c.Failf("base64:reused-destination:empty-text", "%s(\"\") into a value that held %x leaves %x (%v)", how, raw, []byte(reused), err)
+						}
 					}
 				}
 				// soundness: whatever decodes must decode to what a standard decoder gives
